@@ -14,6 +14,8 @@ WBF = "litedram/frontend/wishbone.py"
 AVF = "litedram/frontend/avalon.py"
 ECF = "litedram/frontend/ecc.py"
 BIF = "litedram/frontend/bist.py"
+INF = "litedram/init.py"
+DFF = "litedram/dfii.py"
 
 
 def M(id, prop, ob, file, old, new, expect="refuted", **kw):
@@ -188,4 +190,17 @@ MUTANTS = [
     M("c08.3-renamer", "C08", "C08.3", XBF, "self.submodules += ClockDomainsRenamer(clock_domain)(\n                LiteDRAMNativePortConverter(new_port, port, reverse))", "self.submodules += LiteDRAMNativePortConverter(new_port, port, reverse)"),
     B("c08-twin-depth", "C08", XBF, "self.submodules += LiteDRAMNativePortCDC(new_port, port)", "self.submodules += LiteDRAMNativePortCDC(new_port, port, rdata_depth=32)"),
     B("c08-twin-kworder", "C08", ADF, "                cd_from = port_to.clock_domain,\n                cd_to   = port_from.clock_domain,\n                depth   = rdata_depth,", "                depth   = rdata_depth,\n                cd_to   = port_from.clock_domain,\n                cd_from = port_to.clock_domain,"),
+    # ---- C17 ----
+    M("c17.1-cl-entry", "C17", "C17.1", INF, "             7: 0b0110,", "             7: 0b0111,"),
+    M("c17.1-ddr4-wr", "C17", "C17.1", INF, "            24: 0b0110,\n            22: 0b0111,", "            22: 0b0110,\n            24: 0b0111,"),
+    M("c17.2-cwl-shift", "C17", "C17.2", INF, "        mr2 = (cwl-5) << 3", "        mr2 = (cwl-5) << 4"),
+    M("c17.2-cl-bit", "C17", "C17.2", INF, "        mr0 |= ((cl_to_mr0[cl] >> 1) & 0b111) << 4\n        mr0 |= dll_reset << 8\n        mr0 |= wr_to_mr0[wr] << 9", "        mr0 |= ((cl_to_mr0[cl] >> 1) & 0b111) << 5\n        mr0 |= dll_reset << 8\n        mr0 |= wr_to_mr0[wr] << 9"),
+    M("c17.2-wr-overlap", "C17", "C17.2", INF, "        mr0 |= wr_to_mr0[wr] << 9\n        return mr0", "        mr0 |= wr_to_mr0[wr] << 8\n        return mr0"),
+    M("c17.2-ddr4-cl-msb", "C17", "C17.2", INF, "mr0 |= ((cl_to_mr0[cl] >> 4) & 0b1) << 12", "mr0 |= ((cl_to_mr0[cl] >> 4) & 0b1) << 13"),
+    M("c17.3-ddr3-bl", "C17", "C17.3", INF, "def get_ddr3_phy_init_sequence(phy_settings, timing_settings):\n    cl  = phy_settings.cl\n    bl  = 8", "def get_ddr3_phy_init_sequence(phy_settings, timing_settings):\n    cl  = phy_settings.cl\n    bl  = 4"),
+    M("c17.3-default-cl", "C17", "C17.3", COF, "        f_to_cl_cwl[1866e6] = (13, 9)", "        f_to_cl_cwl[1866e6] = (15, 9)"),
+    M("c17.5-py-const", "C17", "C17.5", INF, 'r += "dfii_command_ras    = 0x08\\n"', 'r += "dfii_command_ras    = 0x04\\n"'),
+    M("c17.5-c-const", "C17", "C17.5", INF, 'r.define("DFII_COMMAND_WE",     "0x02")', 'r.define("DFII_COMMAND_WE",     "0x04")'),
+    M("c17.5-csr-order", "C17", "C17.5", DFF, '            CSRField("cs",   size=1, description="DFI chip select bus"),\n            CSRField("we",   size=1, description="DFI write enable bus"),', '            CSRField("we",   size=1, description="DFI write enable bus"),\n            CSRField("cs",   size=1, description="DFI chip select bus"),'),
+    M("c17.5-mask-differs", "C17", "C17.5", INF, "                invert_masks.append((0b10101111111000, 0b1111))\n\n        for a_inv, ba_inv in invert_masks:\n            r +=", "                invert_masks.append((0b10101111111000, 0b0111))\n\n        for a_inv, ba_inv in invert_masks:\n            r +="),
 ]
